@@ -390,6 +390,27 @@ fn sentinel_main() {
         println!("L\t{}\t{}\t{}\t{}\t{}", module, func, class, if eff.is_empty() { "-".to_string() } else { eff.join(",") }, esc(&detail.chars().take(200).collect::<String>()));
         let _ = std::fs::remove_dir_all(&case.dir);
     }
+    // ... and the handle-based fs natives on a handle that was opened while the capability was there
+    for (func, mode, call_args) in [("write", "w", "h, \"data\""), ("write_line", "w", "h, \"data\""), ("write_bytes", "w", "h, \"data\""),
+                                    ("read", "r", "h"), ("read_line", "r", "h"), ("read_all", "r", "h"), ("read_bytes", "r", "h, 4"), ("close", "w", "h")] {
+        idx += 1;
+        let case = Case::fresh(&root, idx);
+        let cfg = config_of(&["--ae-trusted=true".to_string()]).unwrap();
+        let mut vm = aelys_driver::new_vm_with_config(cfg, Vec::new()).unwrap();
+        let _ = aelys_driver::run_with_vm_and_opt(&mut vm, "needs std.fs", "<caps>", hxlib::runner::opt_level(0));
+        let target = if mode == "r" { "victim.txt" } else { "opened.txt" };
+        let _ = aelys_driver::run_with_vm_and_opt(&mut vm, &format!("let h = fs.open(\"{}/{}\", \"{}\")", case.dir.display(), target, mode), "<caps>", hxlib::runner::opt_level(0));
+        let before = snapshot(&case.dir);
+        vm.set_capabilities(VMCapabilities::default());
+        verif::sink_install();
+        let r = guarded(std::panic::AssertUnwindSafe(|| aelys_driver::run_with_vm_and_opt(&mut vm, &format!("fs.{}({})", func, call_args), "<caps>", hxlib::runner::opt_level(0))));
+        let _ = verif::sink_take();
+        let (class, detail) = outcome(r);
+        drop(vm);                                   // buffered writers flush here at the latest
+        let eff = diff(&before, &snapshot(&case.dir));
+        println!("L\tfs\t{}(handle)\t{}\t{}\t{}", func, class, if eff.is_empty() { "-".to_string() } else { eff.join(",") }, esc(&detail.chars().take(200).collect::<String>()));
+        let _ = std::fs::remove_dir_all(&case.dir);
+    }
     // sys.hostname() with no capability at all: does the value come out of a file?
     {
         // SAFETY: single-threaded here
